@@ -13,8 +13,8 @@ import (
 
 func init() {
 	register(&Prop{
-		ID:    "C13",
-		Title: "The in-process wrapper is indistinguishable from a real gRPC connection",
+		ID:          "C13",
+		Title:       "The in-process wrapper is indistinguishable from a real gRPC connection",
 		Explanation: "Decides the clauses the statement spells out structurally. R13.1 a message received from the other side of the in-process stream is used only as the source of permissiveProtoMerge (copied into the receiver's own message), which itself only reads it. R13.2 Invoke answers an unknown method with ErrMethodNotFound (Unimplemented) and NewStream with Unimplemented for unknown methods and ErrMethodShape (Internal) for a streaming-shape mismatch, all before a handler goroutine is started. R13.3 every path of both handler goroutines ends in ClientServerStream.Close, every channel operation in stream.go that can block is a select alternative to the stream context's Done, and Close cancels that context after closing serverSend. R13.4 the server's incoming metadata is a clone of the client's outgoing metadata and header/trailer handed to call options are clones. R13.5 headerC is closed only under headerM behind a not-yet-closed test. R13.6 Close assigns the error, then closes serverSend, then cancels. Also R13.7 ServerToClient registers every method and stream of the descriptor under /service/method. R13.8 header/trailer call options are honoured on the error path. R13.9 Invoke never returns SendMsg's io.EOF as the outcome. R13.10 pending headers go out with the status. R13.11 metadata kept by the server side is metadata.Join(current, md). R13.12 no UnmarshalOptions of the package discards unknown fields. R13.13 clientSend is closed at most once. Does NOT decide the property's core: equality of transcripts with a real gRPC transport for every script, status mapping of cancellation and deadlines, ordering of header versus messages.",
 		Assumptions: []string{"proto.Merge / Marshal+Unmarshal copy; select picks a ready case"},
 		Run:         runC13,
@@ -835,42 +835,45 @@ func r1311(c *an.Ctx) {
 		name := "(*pkg/wrap.serverStream)." + t[0]
 		c.SawFunc(name)
 		n := 0
-		an.Instrs(fn, func(in ssa.Instruction) {
-			st, ok := in.(*ssa.Store)
-			if !ok || !isStreamField(st.Addr, t[1]) {
-				return
-			}
-			n++
-			joined, replaces := false, false
-			for _, v := range an.Sources(st.Val) { // through a helper the rules have not seen
-				call, isCall := v.(*ssa.Call)
-				if !isCall {
-					continue
+		scan := append([]*ssa.Function{fn}, an.TransparentCalleesOf(fn, 2)...) // the store may sit in a shared helper
+		for _, sf := range scan {
+			an.Instrs(sf, func(in ssa.Instruction) {
+				st, ok := in.(*ssa.Store)
+				if !ok || !isStreamField(st.Addr, t[1]) {
+					return
 				}
-				if an.CalleeName(call) == "google.golang.org/grpc/metadata.Join" {
-					// variadic: the slice holds (current, md)
-					joined = true
+				n++
+				joined, replaces := false, false
+				for _, v := range an.Sources(st.Val) { // through a helper the rules have not seen
+					call, isCall := v.(*ssa.Call)
+					if !isCall {
+						continue
+					}
+					if an.CalleeName(call) == "google.golang.org/grpc/metadata.Join" {
+						// variadic: the slice holds (current, md)
+						joined = true
+					}
 				}
-			}
-			// a hand-written merge: MD.Set replaces what is there, append keeps it
-			for _, h := range an.TransparentCalleesOf(fn, 2) {
-				if len(an.CallsTo(h, "(google.golang.org/grpc/metadata.MD).Set")) > 0 {
+				// a hand-written merge: MD.Set replaces what is there, append keeps it
+				for _, h := range an.TransparentCalleesOf(fn, 2) {
+					if len(an.CallsTo(h, "(google.golang.org/grpc/metadata.MD).Set")) > 0 {
+						replaces = true
+					}
+				}
+				if len(an.CallsTo(fn, "(google.golang.org/grpc/metadata.MD).Set")) > 0 {
 					replaces = true
 				}
-			}
-			if len(an.CallsTo(fn, "(google.golang.org/grpc/metadata.MD).Set")) > 0 {
-				replaces = true
-			}
-			cons := name + "|metadata given in several calls accumulates"
-			switch {
-			case replaces:
-				c.Bad(rule, cons, st.Pos(), "the "+t[1]+" metadata is merged with MD.Set, which replaces the values already kept for a key: when a handler adds to one key in more than one call only the last call's values reach the client (a real connection delivers all of them, in order)")
-			case joined:
-				c.Ok(rule, cons, st.Pos(), "metadata.Join(current, md)")
-			default:
-				c.Unk(rule, cons, st.Pos(), "the "+t[1]+" metadata kept by "+t[0]+" is not metadata.Join(current, md): the merge is not recognised")
-			}
-		})
+				cons := name + "|metadata given in several calls accumulates"
+				switch {
+				case replaces:
+					c.Bad(rule, cons, st.Pos(), "the "+t[1]+" metadata is merged with MD.Set, which replaces the values already kept for a key: when a handler adds to one key in more than one call only the last call's values reach the client (a real connection delivers all of them, in order)")
+				case joined:
+					c.Ok(rule, cons, st.Pos(), "metadata.Join(current, md)")
+				default:
+					c.Unk(rule, cons, st.Pos(), "the "+t[1]+" metadata kept by "+t[0]+" is not metadata.Join(current, md): the merge is not recognised")
+				}
+			})
+		}
 		if n == 0 {
 			c.Bad(rule, name+"|metadata given in several calls accumulates", fn.Pos(), t[0]+" does not keep the metadata it is given")
 		}
